@@ -34,6 +34,8 @@ META = {
 
 
 def run(rep):
+    from ..rules import walk as _W
+    rep.run(_W.writer_sides_independent, "O16.1")
     rep.run(bipartite)
     rep.run(species_graph)
     rep.run(strings)
